@@ -3,6 +3,8 @@
 import json, os, subprocess, sys, time
 from pathlib import Path
 
+HOME = str(Path(__file__).resolve().parent.parent)     # the /verif this module belongs to (a `vp run` snapshot has its own)
+
 def main():
     args = [a for a in sys.argv[1:] if not a.startswith('--')]
     tier = 'thorough' if '--thorough' in sys.argv else 'quick'
@@ -19,7 +21,7 @@ def main():
         for p in props:
             t0 = time.time()
             env = dict(os.environ, VERIF_REPO=wt)
-            r = subprocess.run(['/verif/check', p, '--tier', tier], capture_output=True, text=True, env=env, timeout=3600)
+            r = subprocess.run([HOME + '/check', p, '--tier', tier], capture_output=True, text=True, env=env, timeout=3600)
             lines = [l for l in r.stdout.splitlines() if l.startswith(('VIOLATION', 'KNOWN-FINDING')) or 'PROOF BUILD FAILED' in l or 'translator' in l]
             out[p] = {'rc': r.returncode, 'wall': round(time.time() - t0), 'lines': lines[:8]}
             print(p, json.dumps(out[p])[:700], flush=True)
@@ -35,7 +37,7 @@ def main():
     finally:
         subprocess.run(['git', '-C', '/repo', 'worktree', 'remove', '--force', wt])
         # regenerate the generated Coq files from the real repository
-        subprocess.run(['/verif/check', '--setup'], capture_output=True)
+        subprocess.run([HOME + '/check', '--setup'], capture_output=True)
 
 if __name__ == '__main__':
     sys.exit(main())
